@@ -618,7 +618,7 @@ Proof.
   - inversion H; subst. apply data_contiguous; auto.
   - destruct Hb as [Hb|Hb]; [|discriminate].
     rewrite <- (lazy_rows_view vr) by auto.
-    destruct f; try discriminate; try (destruct (refused_lazy _ x (kc :: sv)); [discriminate|]); inversion H; reflexivity.
+    destruct f; try discriminate; try (destruct (negb (v_lazyqual vr) && refused_lazy _ x (kc :: sv)); [discriminate|]); inversion H; reflexivity.
 Qed.
 
 (* ------------------------------------------------------------------ programs *)
